@@ -21,7 +21,7 @@ func TestC12(t *testing.T) {
 	mon.Main(t, mon.Check{
 		ID:    "C12",
 		Level: "exploration",
-		Rule:  "each case draws a GBN scenario (random N, timeouts, keepalive, latency, mild faults, bidirectional traffic with idle gaps), runs it once to collect the virtual instants of its wire events, then re-runs it K times injecting Close at one of those instants (-1ns/0/+1ns) or at a random instant, by client / server / both at the same instant / twice concurrently, with the transport working / blackholed / its send blocking until cancellation; plus handshake-phase cancellation cases, a real-time slice with a transport whose send blocks, and a real-time slice that runs a scripted mailbox-level session (closes by either side, relay failures, Server.Close) and then takes the goroutine census of the process. Oracles: Close returns within finSendTimeout+2s of virtual time (it must not wait for resend or sync timers); later Send/Recv fail at once; FIN on the wire when the transport works; peer closes itself when the FIN is delivered; every blocked caller returns; the closed endpoint puts nothing but its FIN on the wire afterwards; no goroutine of gbn alive in the bubble afterwards. Non-trivial = a Close was injected while the connection was open; distinct = (closer, transport condition, phase bucket, what the send loop was doing).",
+		Rule:  "each case draws a GBN scenario (random N, timeouts, keepalive, latency, mild faults, bidirectional traffic with idle gaps), runs it once to collect the virtual instants of its wire events (if that run's bubble freezes, the scenario is repeated on the real clock with a Close by both ends after the fault phase), then re-runs it K times injecting Close at one of those instants (-1ns/0/+1ns) or at a random instant, by client / server / both at the same instant / twice concurrently, with the transport working / blackholed / its send blocking until cancellation; plus handshake-phase cancellation cases, a real-time slice with a transport whose send blocks, and a real-time slice that runs a scripted mailbox-level session (closes by either side, relay failures, Server.Close) and then takes the goroutine census of the process. Oracles: Close returns within finSendTimeout+2s of virtual time (it must not wait for resend or sync timers); later Send/Recv fail at once; FIN on the wire when the transport works; peer closes itself when the FIN is delivered; every blocked caller returns; the closed endpoint puts nothing but its FIN on the wire afterwards; no goroutine of gbn alive in the bubble afterwards. Non-trivial = a Close was injected while the connection was open; distinct = (closer, transport condition, phase bucket, what the send loop was doing).",
 		Assumptions: []string{
 			"goroutine census covers goroutines, not bare time.Ticker objects without a goroutine",
 			"virtual time (synctest): bounds are exact, schedules sampled",
